@@ -253,7 +253,7 @@ def gen_bound(r, tr, x, end):
     if c < 75:
         ms = pick(r, [base[0], base[0] + 1, max(base[0] - 1, 0)])
         return b"%d" % min(ms, U)
-    if c < 88:
+    if c < 94:
         return pick(r, [b"0", b"0-0", b"0-1", idb((U, U)), b"%d" % U, idb((U, 0)), idb((0, U)), b"5", b"5-0", b"6",
                         idb((2 ** 63, 0)), b"007", b"5-01"])
     return pick(r, BAD_IDS + [b"*", b"5-*", b"(5", b"(5-1", b"(-", b"++"])
@@ -267,7 +267,7 @@ def xrange_(r, tr, keys):
     c = r.randrange(100)
     if c < 45:
         return cmd
-    cnt = lambda: str(pick(r, [0, 1, 1, 2, n, n + 1, max(n - 1, 0), -1, -5, "x", "", 2 ** 63 - 1, 2 ** 63, "1.0"])).encode()
+    cnt = lambda: str(pick(r, [0, 1, 1, 2, n, n + 1, max(n - 1, 0), -1, -5, 2 ** 63 - 1] * 3 + ["x", "", 2 ** 63, "1.0"])).encode()
     if c < 85:
         return cmd + [kw(r, b"count"), cnt()]
     if c < 90:
